@@ -1,129 +1,153 @@
 import CollectionsC.Proofs.HashTable
 import CollectionsC.Proofs.HashSet
 import CollectionsC.Proofs.HashTableDerived
-/-! C14 for the hash containers: no operation of the model ever touches the C library allocator
-counter — every allocation and release goes through the configured triple. -/
+/-! Ledger facts for the hash table (C06/C08/C14).
+
+A table carries its allocator triple (`t.triple`, copied from the configuration by `new_conf`); every
+allocation and release of every operation goes through `Mem.allocT t.triple` / `Mem.freeT t.triple`.
+`otherOf tr m` collects the ledger fields that belong to the *other* allocator (for `.conf`: the
+C-library counters `libc/liveLibc/lalloc/lfree`; for `.libc`: `live/nalloc/nfree/nrefused` and the
+refusal schedule).  Every operation leaves `otherOf t.triple` unchanged — for a table built by
+`new_conf` no C-library event, for a table built by the default constructor no event on the configured
+allocator and no consumed refusal.  Also: refusal counting (`errAlloc` iff a refusal fired) and
+independence of the ledger (results depend on it only through the schedule). -/
 set_option maxHeartbeats 1600000
 namespace CC.HT
 open CC
 
-@[simp] theorem alloc_libc (m : Mem) : m.alloc.2.libc = m.libc := by
-  unfold Mem.alloc; split <;> rfl
-@[simp] theorem free_libc (m : Mem) : m.free.libc = m.libc := by
-  unfold Mem.free; split <;> rfl
-@[simp] theorem freeN_libc (m : Mem) (n : Nat) : (freeN m n).libc = m.libc := by
+/-- the ledger fields an operation on a container with triple `tr` must not touch -/
+def otherOf (tr : Triple) (m : Mem) : List Nat × List Bool :=
+  match tr with
+  | .conf => ([m.libc, m.liveLibc, m.lalloc, m.lfree], [])
+  | .libc => ([m.live, m.nalloc, m.nfree, m.nrefused], m.sched)
+
+@[simp] theorem otherOf_allocT (tr : Triple) (m : Mem) : otherOf tr (m.allocT tr).2 = otherOf tr m := by
+  cases tr with
+  | conf => simp only [Mem.allocT_conf, otherOf]; unfold Mem.alloc; split <;> rfl
+  | libc => rfl
+@[simp] theorem otherOf_freeT (tr : Triple) (m : Mem) : otherOf tr (m.freeT tr) = otherOf tr m := by
+  cases tr with
+  | conf => simp only [Mem.freeT_conf, otherOf]; unfold Mem.free; split <;> rfl
+  | libc => simp only [Mem.freeT, otherOf]; split <;> rfl
+@[simp] theorem otherOf_check (tr : Triple) (m : Mem) (b : Bool) : otherOf tr (m.check b) = otherOf tr m := by
+  cases b <;> cases tr <;> rfl
+@[simp] theorem otherOf_freeN (tr : Triple) (m : Mem) (n : Nat) : otherOf tr (freeN m tr n) = otherOf tr m := by
   induction n generalizing m with
   | zero => rfl
   | succ n ih => simp [freeN, ih]
 
-end CC.HT
+/-- reading `otherOf` for a configured container: the C-library counters -/
+theorem otherOf_conf {m m' : Mem} (h : otherOf .conf m' = otherOf .conf m) :
+    m'.libc = m.libc ∧ m'.liveLibc = m.liveLibc ∧ m'.lalloc = m.lalloc ∧ m'.lfree = m.lfree := by
+  simp only [otherOf, Prod.mk.injEq, List.cons.injEq, and_true] at h
+  exact ⟨h.1, h.2.1, h.2.2.1, h.2.2.2⟩
+/-- … and for a container on the C library: the configured allocator's counters and schedule -/
+theorem otherOf_libc {m m' : Mem} (h : otherOf .libc m' = otherOf .libc m) :
+    m'.live = m.live ∧ m'.nalloc = m.nalloc ∧ m'.nfree = m.nfree ∧ m'.nrefused = m.nrefused ∧ m'.sched = m.sched := by
+  simp only [otherOf, Prod.mk.injEq, List.cons.injEq, and_true] at h
+  exact ⟨h.1.1, h.1.2.1, h.1.2.2.1, h.1.2.2.2, h.2⟩
 
-namespace CC.HashTable
-open CC CC.HT
-
-/-! ### C14: every allocator event of every table operation goes through the configured triple
-(the `libc` counter of the ledger never moves) -/
-
-theorem new_libc (c : HCfg) (cap : Nat) (m : Mem) : (HashTable.new c cap m).2.2.libc = m.libc := by
-  unfold HashTable.new; simp only
-  split
-  · simp
-  · split <;> simp
-
-theorem resize_libc (c : HCfg) (t : HashTable) (n : Nat) (m : Mem) : (t.resize c n m).2.2.libc = m.libc := by
-  unfold resize
-  split
-  · rfl
-  · simp only; split <;> simp
-
-theorem growLoop_libc (c : HCfg) (fuel : Nat) (t : HashTable) (m : Mem) : (growLoop c fuel t m).2.2.libc = m.libc := by
-  induction fuel generalizing t m with
-  | zero => simp [growLoop]
-  | succ fuel ih =>
-    unfold growLoop
-    split
-    · simp only
-      split
-      · exact resize_libc c t _ m
-      · rw [ih, resize_libc]
-    · rfl
-
-theorem add_libc (c : HCfg) (t : HashTable) (k : Option Nat) (v : Nat) (m : Mem) : (t.add c k v m).2.2.libc = m.libc := by
-  unfold add
-  simp only
-  split
-  · exact growLoop_libc c 64 t m
-  · split
-    · simp [growLoop_libc]
-    · split <;> simp [growLoop_libc]
-
-theorem remove_libc (c : HCfg) (t : HashTable) (k : Option Nat) (m : Mem) : (t.remove c k m).2.2.2.libc = m.libc := by
-  unfold remove; simp only
-  split <;> simp
-
-theorem removeAll_libc (t : HashTable) (m : Mem) : (t.removeAll m).2.libc = m.libc := by
-  rw [removeAll_mem]; simp
-
-theorem destroy_libc (t : HashTable) (m : Mem) : (t.destroy m).libc = m.libc := by
-  unfold destroy; simp
-
-end CC.HashTable
-
-namespace CC.HT
-open CC
-
-theorem alloc_nrefused (m : Mem) : m.alloc.2.nrefused = m.nrefused + (if m.alloc.1 then 0 else 1) := by
-  unfold Mem.alloc; split <;> simp
-@[simp] theorem free_nrefused (m : Mem) : m.free.nrefused = m.nrefused := by
-  unfold Mem.free; split <;> rfl
+/-! refusals -/
+theorem allocT_nrefused (m : Mem) (tr : Triple) :
+    (m.allocT tr).2.nrefused = m.nrefused + (if (m.allocT tr).1 then 0 else 1) := by
+  cases tr with
+  | conf =>
+    simp only [Mem.allocT_conf]
+    cases hs : m.sched with
+    | nil => simp [Mem.alloc, hs]
+    | cons b rest => cases b <;> simp [Mem.alloc, hs]
+  | libc => simp [Mem.allocT]
+@[simp] theorem freeT_nrefused (m : Mem) (tr : Triple) : (m.freeT tr).nrefused = m.nrefused := by
+  cases tr <;> simp only [Mem.freeT] <;> (try unfold Mem.free) <;> split <;> rfl
 @[simp] theorem check_nrefused (m : Mem) (b : Bool) : (m.check b).nrefused = m.nrefused := by
   cases b <;> simp [Mem.check]
-@[simp] theorem freeN_nrefused (m : Mem) (n : Nat) : (freeN m n).nrefused = m.nrefused := by
+@[simp] theorem freeN_nrefused (m : Mem) (tr : Triple) (n : Nat) : (freeN m tr n).nrefused = m.nrefused := by
   induction n generalizing m with
   | zero => rfl
   | succ n ih => simp [freeN, ih]
-@[simp] theorem free_sched (m : Mem) : m.free.sched = m.sched := by
-  unfold Mem.free; split <;> rfl
-@[simp] theorem freeN_sched (m : Mem) (n : Nat) : (freeN m n).sched = m.sched := by
+
+/-! schedule -/
+@[simp] theorem freeT_sched (m : Mem) (tr : Triple) : (m.freeT tr).sched = m.sched := by
+  cases tr <;> simp only [Mem.freeT] <;> (try unfold Mem.free) <;> split <;> rfl
+@[simp] theorem freeN_sched (m : Mem) (tr : Triple) (n : Nat) : (freeN m tr n).sched = m.sched := by
   induction n generalizing m with
   | zero => rfl
   | succ n ih => simp [freeN, ih]
 /-- the allocator's answer and the rest of the schedule depend on the schedule only -/
-theorem alloc_congr (m m' : Mem) (h : m.sched = m'.sched) :
-    m.alloc.1 = m'.alloc.1 ∧ m.alloc.2.sched = m'.alloc.2.sched := by
-  unfold Mem.alloc; rw [h]; split <;> simp
+theorem allocT_congr (m m' : Mem) (tr : Triple) (h : m.sched = m'.sched) :
+    (m.allocT tr).1 = (m'.allocT tr).1 ∧ (m.allocT tr).2.sched = (m'.allocT tr).2.sched := by
+  cases tr with
+  | conf => simp only [Mem.allocT_conf]; unfold Mem.alloc; rw [h]; split <;> simp
+  | libc => exact ⟨rfl, h⟩
 
 end CC.HT
 
 namespace CC.DArr
 open CC CC.HT
 
-theorem new_libc (cap : Nat) (m : Mem) : (DArr.new cap m).2.2.libc = m.libc := by
+theorem new_other (cap : Nat) (tr : Triple) (m : Mem) : otherOf tr (DArr.new cap tr m).2.2 = otherOf tr m := by
   unfold DArr.new; split
   · rfl
-  · simp only; split
-    · simp
-    · split <;> simp
-theorem expand_libc (c : HCfg) (a : DArr) (m : Mem) : (a.expand c m).2.2.libc = m.libc := by
-  unfold expand; split
-  · rfl
-  · simp only; split <;> simp
-theorem add_libc (c : HCfg) (a : DArr) (x : Nat) (m : Mem) : (a.add c x m).2.2.libc = m.libc := by
+  · split
+    · rfl
+    · simp only; split
+      · simp
+      · split <;> simp
+theorem expand_other (c : HCfg) (a : DArr) (m : Mem) : otherOf a.triple (a.expand c m).2.2 = otherOf a.triple m := by
+  unfold expand
+  by_cases h0 : a.cap = Gen.CC_MAX_ELEMENTS
+  · simp [h0]
+  · simp only [h0, if_false]
+    generalize (if c.agrow a.cap ≤ a.cap then (if a.cap < Gen.CC_MAX_ELEMENTS / 2 then a.cap + 1 else Gen.CC_MAX_ELEMENTS) else c.agrow a.cap) = nc
+    by_cases h1 : nc > Gen.CC_MAX_ELEMENTS / 8
+    · simp [h1]
+    · simp only [h1, if_false]
+      cases h2 : (m.allocT a.triple).1
+      · have := otherOf_allocT a.triple m; simpa using this
+      · simp
+theorem expand_triple (c : HCfg) (a : DArr) (m : Mem) : (a.expand c m).2.1.triple = a.triple := by
+  unfold expand
+  by_cases h0 : a.cap = Gen.CC_MAX_ELEMENTS
+  · simp [h0]
+  · simp only [h0, if_false]
+    generalize (if c.agrow a.cap ≤ a.cap then (if a.cap < Gen.CC_MAX_ELEMENTS / 2 then a.cap + 1 else Gen.CC_MAX_ELEMENTS) else c.agrow a.cap) = nc
+    by_cases h1 : nc > Gen.CC_MAX_ELEMENTS / 8
+    · simp [h1]
+    · simp only [h1, if_false]
+      cases h2 : (m.allocT a.triple).1 <;> simp
+theorem add_triple (c : HCfg) (a : DArr) (x : Nat) (m : Mem) : (a.add c x m).2.1.triple = a.triple := by
   unfold add; simp only
   split
   · split
-    · exact expand_libc c a m
-    · simp [expand_libc]
+    · exact expand_triple c a m
+    · simp [expand_triple]
+  · split <;> rfl
+theorem add_other (c : HCfg) (a : DArr) (x : Nat) (m : Mem) : otherOf a.triple (a.add c x m).2.2 = otherOf a.triple m := by
+  unfold add; simp only
+  split
+  · split
+    · exact expand_other c a m
+    · simp [expand_other]
   · split <;> simp
-theorem addAll_libc (c : HCfg) (xs : List Nat) (a : DArr) (m : Mem) : (addAll c xs a m).2.2.libc = m.libc := by
+theorem addAll_triple (c : HCfg) (xs : List Nat) (a : DArr) (m : Mem) : (addAll c xs a m).2.1.triple = a.triple := by
   induction xs generalizing a m with
   | nil => rfl
   | cons x xs ih =>
     unfold addAll; simp only
     split
-    · exact add_libc c a x m
-    · rw [ih, add_libc]
-theorem destroy_libc (a : DArr) (m : Mem) : (a.destroy m).libc = m.libc := by simp [destroy]
+    · exact add_triple c a x m
+    · rw [ih, add_triple]
+theorem addAll_other (c : HCfg) (xs : List Nat) (a : DArr) (m : Mem) : otherOf a.triple (addAll c xs a m).2.2 = otherOf a.triple m := by
+  induction xs generalizing a m with
+  | nil => rfl
+  | cons x xs ih =>
+    unfold addAll; simp only
+    split
+    · exact add_other c a x m
+    · have := ih (a.add c x m).2.1 (a.add c x m).2.2
+      rw [add_triple] at this
+      rw [this, add_other]
+theorem destroy_other (a : DArr) (m : Mem) : otherOf a.triple (a.destroy m) = otherOf a.triple m := by simp [destroy]
 
 end CC.DArr
 
@@ -131,37 +155,170 @@ namespace CC.HashTable
 open CC CC.HT CC.Spec
 open CC.Spec.Map (Op Out)
 
-theorem collect_libc (c : HCfg) (t : HashTable) (xs : List Nat) (m : Mem) : (t.collect c xs m).2.2.libc = m.libc := by
+/-! ### every operation touches only the counters of the table's own triple -/
+
+theorem new_other (c : HCfg) (cap : Nat) (tr : Triple) (m : Mem) : otherOf tr (HashTable.new c cap tr m).2.2 = otherOf tr m := by
+  unfold HashTable.new; simp only
+  split
+  · simp
+  · split <;> simp
+
+theorem resize_triple (c : HCfg) (t : HashTable) (n : Nat) (m : Mem) : (t.resize c n m).2.1.triple = t.triple := by
+  unfold resize; split
+  · rfl
+  · simp only; split <;> rfl
+theorem resize_other (c : HCfg) (t : HashTable) (n : Nat) (m : Mem) : otherOf t.triple (t.resize c n m).2.2 = otherOf t.triple m := by
+  unfold resize
+  split
+  · rfl
+  · simp only; split <;> simp
+
+theorem growLoop_triple (c : HCfg) (fuel : Nat) (t : HashTable) (m : Mem) : (growLoop c fuel t m).2.1.triple = t.triple := by
+  induction fuel generalizing t m with
+  | zero => rfl
+  | succ fuel ih =>
+    unfold growLoop
+    split
+    · simp only
+      split
+      · exact resize_triple c t _ m
+      · rw [ih, resize_triple]
+    · rfl
+theorem growLoop_other (c : HCfg) (fuel : Nat) (t : HashTable) (m : Mem) :
+    otherOf t.triple (growLoop c fuel t m).2.2 = otherOf t.triple m := by
+  induction fuel generalizing t m with
+  | zero => simp [growLoop]
+  | succ fuel ih =>
+    unfold growLoop
+    split
+    · simp only
+      split
+      · exact resize_other c t _ m
+      · have := ih (t.resize c (t.capacity <<< 1) m).2.1 (t.resize c (t.capacity <<< 1) m).2.2
+        rw [resize_triple] at this
+        rw [this, resize_other]
+    · rfl
+
+theorem add_triple (c : HCfg) (t : HashTable) (k : Key) (v : Nat) (m : Mem) : (t.add c k v m).2.1.triple = t.triple := by
+  unfold add; simp only
+  split
+  · exact growLoop_triple c 64 t m
+  · split
+    · simp [growLoop_triple]
+    · split <;> simp [growLoop_triple]
+theorem add_other (c : HCfg) (t : HashTable) (k : Key) (v : Nat) (m : Mem) : otherOf t.triple (t.add c k v m).2.2 = otherOf t.triple m := by
+  have hg := growLoop_other c 64 t m
+  have ht := growLoop_triple c 64 t m
+  unfold add; simp only
+  split
+  · exact hg
+  · split
+    · simp [hg]
+    · rw [ht]; split <;> simp [hg]
+
+theorem remove_triple (c : HCfg) (t : HashTable) (k : Key) (m : Mem) : (t.remove c k m).2.2.1.triple = t.triple := by
+  unfold remove; simp only; split <;> rfl
+theorem remove_other (c : HCfg) (t : HashTable) (k : Key) (m : Mem) : otherOf t.triple (t.remove c k m).2.2.2 = otherOf t.triple m := by
+  unfold remove; simp only
+  split <;> simp
+
+theorem removeAll_other (t : HashTable) (m : Mem) : otherOf t.triple (t.removeAll m).2 = otherOf t.triple m := by
+  rw [removeAll_mem]; simp
+
+theorem destroy_other (t : HashTable) (m : Mem) : otherOf t.triple (t.destroy m) = otherOf t.triple m := by
+  unfold destroy; simp
+
+theorem collect_other (c : HCfg) (t : HashTable) (xs : List Nat) (m : Mem) : otherOf t.triple (t.collect c xs m).2.2 = otherOf t.triple m := by
+  have hn := DArr.new_other t.size t.triple m
   unfold collect; simp only
-  cases h : (DArr.new t.size m).2.1 with
-  | none => simp only; exact DArr.new_libc t.size m
+  cases h : (DArr.new t.size t.triple m).2.1 with
+  | none => simp only; exact hn
   | some a =>
+    have ha : a.triple = t.triple := by
+      unfold DArr.new at h
+      split at h
+      · cases h
+      · split at h
+        · cases h
+        · simp only at h; split at h
+          · cases h
+          · split at h
+            · cases h
+            · simp only [Option.some.injEq] at h; rw [← h]
+    have h1 := DArr.addAll_other c xs a ((DArr.new t.size t.triple m).2.2.check (decide (t.capacity ≤ t.buckets.length)))
+    have h2 := DArr.addAll_triple c xs a ((DArr.new t.size t.triple m).2.2.check (decide (t.capacity ≤ t.buckets.length)))
+    rw [ha] at h1
     simp only
     split
-    · rw [DArr.destroy_libc, DArr.addAll_libc]; simp [DArr.new_libc]
-    · rw [DArr.addAll_libc]; simp [DArr.new_libc]
+    · have h3 := DArr.destroy_other (DArr.addAll c xs a ((DArr.new t.size t.triple m).2.2.check (decide (t.capacity ≤ t.buckets.length)))).2.1
+        (DArr.addAll c xs a ((DArr.new t.size t.triple m).2.2.check (decide (t.capacity ≤ t.buckets.length)))).2.2
+      rw [h2, ha] at h3
+      simp only; rw [h3, h1]; simp [hn]
+    · simp only; rw [h1]; simp [hn]
 
-theorem getKeys_libc (c : HCfg) (t : HashTable) (m : Mem) : (t.getKeys c m).2.2.libc = m.libc := collect_libc c t _ m
-theorem getValues_libc (c : HCfg) (t : HashTable) (m : Mem) : (t.getValues c m).2.2.libc = m.libc := collect_libc c t _ m
+theorem getKeys_other (c : HCfg) (t : HashTable) (m : Mem) : otherOf t.triple (t.getKeys c m).2.2 = otherOf t.triple m := collect_other c t _ m
+theorem getValues_other (c : HCfg) (t : HashTable) (m : Mem) : otherOf t.triple (t.getValues c m).2.2 = otherOf t.triple m := collect_other c t _ m
 
-theorem get_libc (c : HCfg) (t : HashTable) (k : Key) (m : Mem) : (t.get c k m).2.2.libc = m.libc := by
-  unfold get; simp only; split <;> simp
+/-- the array handed out by `get_keys/get_values` carries the table's triple -/
+theorem collect_triple (c : HCfg) (t : HashTable) (xs : List Nat) (m : Mem) (a : DArr)
+    (h : (t.collect c xs m).2.1 = some a) : a.triple = t.triple := by
+  unfold collect at h; simp only at h
+  cases hn : (DArr.new t.size t.triple m).2.1 with
+  | none => rw [hn] at h; cases h
+  | some a0 =>
+    have ha : a0.triple = t.triple := by
+      unfold DArr.new at hn
+      split at hn
+      · cases hn
+      · split at hn
+        · cases hn
+        · simp only at hn; split at hn
+          · cases hn
+          · split at hn
+            · cases hn
+            · simp only [Option.some.injEq] at hn; rw [← hn]
+    rw [hn] at h; simp only at h
+    split at h
+    · cases h
+    · simp only [Option.some.injEq] at h
+      rw [← h, DArr.addAll_triple, ha]
 
-theorem step_libc (c : HCfg) (t : HashTable) (op : Op) (m : Mem) : (t.step c op m).2.2.libc = m.libc := by
+theorem get_mem (c : HCfg) (t : HashTable) (k : Key) (m : Mem) :
+    (t.get c k m).2.2 = m.check (decide (t.index (keyHash c k) < t.buckets.length)) := by
+  unfold get; simp only; split <;> rfl
+
+theorem step_triple (c : HCfg) (t : HashTable) (op : Op) (m : Mem) : (t.step c op m).2.1.triple = t.triple := by
   cases op with
-  | add k v => exact add_libc c t k v m
-  | get k => exact get_libc c t k m
-  | containsKey k => simp only [step, containsKey]; exact get_libc c t k m
-  | remove k => exact remove_libc c t k m
-  | removeAll => exact removeAll_libc t m
+  | add k v => exact add_triple c t k v m
+  | get k => rfl
+  | containsKey k => rfl
+  | remove k => exact remove_triple c t k m
+  | removeAll => exact removeAll_triple t m
 
-theorem run_libc (c : HCfg) (ops : List Op) (t : HashTable) (m : Mem) : (t.run c ops m).2.2.2.libc = m.libc := by
+theorem step_other (c : HCfg) (t : HashTable) (op : Op) (m : Mem) : otherOf t.triple (t.step c op m).2.2 = otherOf t.triple m := by
+  cases op with
+  | add k v => exact add_other c t k v m
+  | get k => simp only [step]; rw [get_mem]; simp
+  | containsKey k => simp only [step, containsKey]; rw [get_mem]; simp
+  | remove k => exact remove_other c t k m
+  | removeAll => exact removeAll_other t m
+
+theorem run_triple (c : HCfg) (ops : List Op) (t : HashTable) (m : Mem) : (t.run c ops m).2.2.1.triple = t.triple := by
   induction ops generalizing t m with
   | nil => rfl
-  | cons op ops ih => simp only [run]; rw [ih, step_libc]
+  | cons op ops ih => simp only [run]; rw [ih, step_triple]
 
-theorem iter_libc (t : HashTable) (it : HIter) (m : Mem) :
-    (t.iterInit m).2.libc = m.libc ∧ (t.iterNext it m).2.2.2.libc = m.libc := by
+theorem run_other (c : HCfg) (ops : List Op) (t : HashTable) (m : Mem) : otherOf t.triple (t.run c ops m).2.2.2 = otherOf t.triple m := by
+  induction ops generalizing t m with
+  | nil => rfl
+  | cons op ops ih =>
+    simp only [run]
+    have := ih (t.step c op m).2.1 (t.step c op m).2.2
+    rw [step_triple] at this
+    rw [this, step_other]
+
+theorem iter_other (tr : Triple) (t : HashTable) (it : HIter) (m : Mem) :
+    otherOf tr (t.iterInit m).2 = otherOf tr m ∧ otherOf tr (t.iterNext it m).2.2.2 = otherOf tr m := by
   constructor
   · unfold iterInit; simp only; split <;> simp
   · unfold iterNext
@@ -173,10 +330,11 @@ theorem iter_libc (t : HashTable) (it : HIter) (m : Mem) :
         · rfl
         · simp only; split <;> simp
 
-theorem iterRemove_libc (c : HCfg) (t : HashTable) (it : HIter) (m : Mem) : (t.iterRemove c it m).2.2.2.libc = m.libc := by
+theorem iterRemove_other (c : HCfg) (t : HashTable) (it : HIter) (m : Mem) :
+    otherOf t.triple (t.iterRemove c it m).2.2.2.2 = otherOf t.triple m := by
   unfold iterRemove; split
-  · simp
-  · exact remove_libc c t _ m
+  · rfl
+  · exact remove_other c t _ m
 
 /-! ### refusals -/
 
@@ -187,9 +345,9 @@ theorem resize_nrefused (c : HCfg) (t : HashTable) (n : Nat) (m : Mem) :
   split
   · right; simp
   · simp only
-    cases ha : m.alloc.1 with
-    | false => left; simp [alloc_nrefused, ha]
-    | true => right; simp [alloc_nrefused, ha]
+    cases ha : (m.allocT t.triple).1 with
+    | false => left; simp [allocT_nrefused, ha]
+    | true => right; simp [allocT_nrefused, ha]
 
 theorem growLoop_nrefused (c : HCfg) (fuel : Nat) (t : HashTable) (m : Mem) :
     ((growLoop c fuel t m).1 = .errAlloc ∧ (growLoop c fuel t m).2.2.nrefused = m.nrefused + 1) ∨
@@ -222,9 +380,9 @@ theorem add_nrefused (c : HCfg) (t : HashTable) (k : Key) (v : Nat) (m : Mem) :
       · rename_i hr
         generalize hm1 : ((growLoop c 64 t m).2.2.check (decide ((growLoop c 64 t m).2.1.index (keyHash c k) < (growLoop c 64 t m).2.1.buckets.length))) = m1
         have hm1r : m1.nrefused = m.nrefused := by rw [← hm1]; simp [b]
-        cases ha : m1.alloc.1 with
-        | false => left; simp [alloc_nrefused, ha, hm1r]
-        | true => right; simp [alloc_nrefused, ha, hm1r]
+        cases ha : (m1.allocT (growLoop c 64 t m).2.1.triple).1 with
+        | false => left; simp [allocT_nrefused, ha, hm1r]
+        | true => right; simp [allocT_nrefused, ha, hm1r]
 
 theorem step_nrefused (c : HCfg) (t : HashTable) (op : Op) (m : Mem) :
     ((t.step c op m).1.st = some .errAlloc ∧ (t.step c op m).2.2.nrefused = m.nrefused + 1) ∨
@@ -239,18 +397,22 @@ theorem step_nrefused (c : HCfg) (t : HashTable) (op : Op) (m : Mem) :
   | remove k => right; simp only [step, remove]; split <;> simp
   | removeAll => right; simp only [step]; rw [removeAll_mem]; simp
 
-end CC.HashTable
-
-namespace CC.HashTable
-open CC CC.HT CC.Spec
-open CC.Spec.Map (Op Out)
+/-- a table on the C library allocator is never refused anything -/
+theorem libc_never_refused (c : HCfg) (t : HashTable) (op : Op) (m : Mem) (ht : t.triple = .libc) :
+    (t.step c op m).1.st ≠ some .errAlloc := by
+  have ho := step_other c t op m
+  rw [ht] at ho
+  have := (otherOf_libc ho).2.2.2.1
+  rcases step_nrefused c t op m with ⟨_, b⟩ | ⟨a, _⟩
+  · omega
+  · exact a
 
 /-! ### allocator independence: results depend on the ledger only through the schedule -/
 
 theorem resize_congr (c : HCfg) (t : HashTable) (n : Nat) (m m' : Mem) (h : m.sched = m'.sched) :
     (t.resize c n m).1 = (t.resize c n m').1 ∧ (t.resize c n m).2.1 = (t.resize c n m').2.1 ∧
     (t.resize c n m).2.2.sched = (t.resize c n m').2.2.sched := by
-  obtain ⟨a1, a2⟩ := alloc_congr m m' h
+  obtain ⟨a1, a2⟩ := allocT_congr m m' t.triple h
   unfold resize
   split
   · exact ⟨rfl, rfl, h⟩
@@ -284,20 +446,20 @@ theorem add_congr (c : HCfg) (t : HashTable) (k : Key) (v : Nat) (m m' : Mem) (h
   · exact ⟨g1, g2, g3⟩
   · split
     · exact ⟨rfl, rfl, by simp [g3]⟩
-    · obtain ⟨a1, a2⟩ := alloc_congr
+    · obtain ⟨a1, a2⟩ := allocT_congr
         ((growLoop c 64 t m).2.2.check (decide ((growLoop c 64 t m').2.1.index (keyHash c k) < (growLoop c 64 t m').2.1.buckets.length)))
         ((growLoop c 64 t m').2.2.check (decide ((growLoop c 64 t m').2.1.index (keyHash c k) < (growLoop c 64 t m').2.1.buckets.length)))
-        (by simp [g3])
+        (growLoop c 64 t m').2.1.triple (by simp [g3])
       rw [a1]
       split
       · exact ⟨rfl, rfl, a2⟩
       · exact ⟨rfl, rfl, a2⟩
 
-theorem new_congr (c : HCfg) (cap : Nat) (m m' : Mem) (h : m.sched = m'.sched) :
-    (HashTable.new c cap m).1 = (HashTable.new c cap m').1 ∧ (HashTable.new c cap m).2.1 = (HashTable.new c cap m').2.1 ∧
-    (HashTable.new c cap m).2.2.sched = (HashTable.new c cap m').2.2.sched := by
-  obtain ⟨a1, a2⟩ := alloc_congr m m' h
-  obtain ⟨b1, b2⟩ := alloc_congr m.alloc.2 m'.alloc.2 a2
+theorem new_congr (c : HCfg) (cap : Nat) (tr : Triple) (m m' : Mem) (h : m.sched = m'.sched) :
+    (HashTable.new c cap tr m).1 = (HashTable.new c cap tr m').1 ∧ (HashTable.new c cap tr m).2.1 = (HashTable.new c cap tr m').2.1 ∧
+    (HashTable.new c cap tr m).2.2.sched = (HashTable.new c cap tr m').2.2.sched := by
+  obtain ⟨a1, a2⟩ := allocT_congr m m' tr h
+  obtain ⟨b1, b2⟩ := allocT_congr (m.allocT tr).2 (m'.allocT tr).2 tr a2
   unfold HashTable.new; simp only
   rw [a1]
   split
@@ -327,15 +489,16 @@ theorem step_congr (c : HCfg) (t : HashTable) (op : Op) (m m' : Mem) (h : m.sche
   | removeAll =>
     simp only [step]
     refine ⟨trivial, ?_, by rw [removeAll_mem, removeAll_mem]; simp [h]⟩
-    cases hr : (t.removeAll m).1 with | mk a b c' d =>
-    cases hr' : (t.removeAll m').1 with | mk a' b' c'' d' =>
+    cases hr : (t.removeAll m).1 with | mk a b c' d e =>
+    cases hr' : (t.removeAll m').1 with | mk a' b' c'' d' e' =>
+    have e0 := removeAll_triple t m; have e0' := removeAll_triple t m'
     have e1 := removeAll_capacity t m; have e1' := removeAll_capacity t m'
     have e2 := removeAll_threshold t m; have e2' := removeAll_threshold t m'
     have e3 := removeAll_buckets t m; have e3' := removeAll_buckets t m'
     have e4 := removeAll_size t m; have e4' := removeAll_size t m'
-    rw [hr] at e1 e2 e3 e4; rw [hr'] at e1' e2' e3' e4'
-    simp only at e1 e2 e3 e4 e1' e2' e3' e4'
-    rw [e1, e2, e3, e4, e1', e2', e3', e4']
+    rw [hr] at e0 e1 e2 e3 e4; rw [hr'] at e0' e1' e2' e3' e4'
+    simp only at e0 e1 e2 e3 e4 e0' e1' e2' e3' e4'
+    rw [e0, e1, e2, e3, e4, e0', e1', e2', e3', e4']
 
 theorem run_congr (c : HCfg) (ops : List Op) (t : HashTable) (m m' : Mem) (h : m.sched = m'.sched) :
     (t.run c ops m).1 = (t.run c ops m').1 ∧ (t.run c ops m).2.1 = (t.run c ops m').2.1 ∧
